@@ -57,7 +57,7 @@ package setec
 //@   requires storeInv(s) && !s.active.Mutex && ctx != nil && s.client != nil
 //@   ensures [C16 lookup.gate] (!old(has(s.active.m, name)) && !s.allowLookup) ==> (sec == nil && err != nil && net == old(net) && sameEntries(s))
 //@   ensures [C16 lookup.known-no-request] old(has(s.active.m, name)) ==> (sec != nil && err == nil && net == old(net) && sameEntries(s))
-//@   ensures [C12 lookup.inv] storeInv(s) && !s.active.Mutex && handlesKept(s)
+//@   ensures [C12 lookup.inv] storeInv(s) && !s.active.Mutex && handlesKept(s) && valuesKept(s)
 //@ func (*Store).run(s, ctx, interval, done)
 //@   ensures true
 //@ func (*Store).Refresh(s, ctx) (err)
@@ -69,10 +69,6 @@ package setec
 //@ func NewFileClient(path) (fc, err)
 //@   ensures true
 //@ func do(ctx, c, path, req) (resp, err)
-//@   ensures true
-//@ func (*Fields).Apply(f, ctx, s) (err)
-//@   ensures true
-//@ func (fieldInfo).apply(f, ctx, s, fullName) (err)
 //@   ensures true
 
 // ---- cache ---------------------------------------------------------------------------------
@@ -100,6 +96,7 @@ package setec
 //@   ensures [C16 lookupfn.one-request] net == old(net) + 1
 //@   ensures [C13 lookupfn.flushed] (err == nil && s.cache != nil) ==> cacheWrites == old(cacheWrites) + 1
 //@   ensures [C12 shared lookupfn.inv] storeInv(s) && !s.active.Mutex && handlesKept(s)
+//@   ensures [C12 shared lookupfn.values-kept] forall n string :: (n != name && old(has(s.active.m, n))) ==> (has(s.active.m, n) && s.active.m[n].Secret == old(s.active.m[n].Secret))
 //@   ensures [C12 lookupfn.others-kept] forall n string :: n != name ==> (has(s.active.m, n) == old(has(s.active.m, n)) && (has(s.active.m, n) ==> s.active.m[n].Secret == old(s.active.m[n].Secret)))
 //@   ensures [C16 lookupfn.ran] ran
 //@   at call Get: assert [C12 lookupfn.no-request-under-lock] !s.active.Mutex
@@ -108,11 +105,13 @@ package setec
 //@ func (*Store).lookupSecretInternal(s, ctx, name) (sec, err)
 //@   requires storeInv(s) && !s.active.Mutex && ctx != nil && s.client != nil
 //@   ensures [C12 lookupint.inv] storeInv(s) && !s.active.Mutex && handlesKept(s)
+//@   ensures [C12 lookupint.values-kept] !old(has(s.active.m, name)) ==> valuesKept(s)
 //@   ensures [C16 lookupint.success] err == nil ==> (sec != nil && has(s.active.m, name) && has(s.active.f, name))
 //@   ensures [C16 lookupint.fail] err != nil ==> sec == nil
 //@   ensures [C16 lookupint.not-failed-by-others-cancellation] (err != nil && (errIs(err, context.DeadlineExceeded) || errIs(err, context.Canceled)) && ctxErrAt(ctx, clock) == nil) ==> ran
 //@   loop 0
 //@     invariant [state] storeInv(s) && !s.active.Mutex && ctx != nil && s.client != nil && handlesKept(s)
+//@     invariant [values] !old(has(s.active.m, name)) ==> valuesKept(s)
 //@     progress [C16 lookupint.retry-only-others-failure] !ran && lastCtxErr == nil
 
 // ---- file client ---------------------------------------------------------------------------
@@ -233,10 +232,14 @@ package setec
 
 //@ func (StoreConfig).secretNames(c) (sec, svs, err)
 //@   loop 0
+//@     invariant [svs-nonnil] forall j int :: (0 <= j && j < len(svs)) ==> svs[j] != nil
+//@     invariant [same-when-no-structs] iter == 0 ==> len(sec) == len(c.Secrets)
 //@     invariant [prefix] len(sec) >= len(c.Secrets) && (forall i int :: (0 <= i && i < len(c.Secrets)) ==> sec[i] == c.Secrets[i])
 //@   loop 1
 //@     invariant [nonempty] forall j int :: (0 <= j && j < iter) ==> sec[j] != ""
 //@   ensures [C10 names.nonempty-distinct] err == nil ==> ((forall j int :: (0 <= j && j < len(sec)) ==> sec[j] != "") && (forall i int, j int :: (0 <= i && i < j && j < len(sec)) ==> sec[i] != sec[j]))
+//@   ensures [C10 names.empty-config] (err == nil && len(c.Secrets) == 0 && len(c.Structs) == 0) ==> len(sec) == 0
+//@   ensures [C20 names.fields-nonnil] err == nil ==> (forall j int :: (0 <= j && j < len(svs)) ==> svs[j] != nil)
 //@   ensures [C10,C20 names.listed-included] err == nil ==> (forall i int :: (0 <= i && i < len(c.Secrets)) ==> (exists j int :: 0 <= j && j < len(sec) && sec[j] == c.Secrets[i]))
 
 // ---- struct-tag plumbing -------------------------------------------------------------------
@@ -281,4 +284,28 @@ package setec
 //@     invariant [sep] forall n string, k string :: (has(s.active.m, n) && has(s.active.m, k) && n != k && s.active.m[n] != nil) ==> s.active.m[n] != s.active.m[k]
 //@     invariant [names] (forall j int :: (0 <= j && j < len(secrets)) ==> secrets[j] != "") && (forall i int, j int :: (0 <= i && i < j && j < len(secrets)) ==> secrets[i] != secrets[j]) &&
 //@        (forall i int :: (0 <= i && i < len(cfg.Secrets)) ==> (exists j int :: 0 <= j && j < len(secrets) && secrets[j] == cfg.Secrets[i]))
+//@     invariant [nil-only-if-stubbed] forall n string :: (has(s.active.m, n) && s.active.m[n] == nil) ==> (exists j int :: 0 <= j && j < iter && secrets[j] == n)
 //@     invariant [done] forall j int :: (0 <= j && j < iter) ==> (has(s.active.m, secrets[j]) && (s.active.m[secrets[j]] != nil ==> s.active.m[secrets[j]].Declared))
+//@   loop 1
+//@     invariant [state] s != nil && storeInv(s) && !s.active.Mutex && ctx != nil && s.client == cfg.Client && cfg.Client != nil && s.allowLookup == cfg.AllowLookup && s.expiryAge == cfg.ExpiryAge
+//@     invariant [listed] forall i int :: (0 <= i && i < len(cfg.Secrets)) ==> (has(s.active.m, cfg.Secrets[i]) && s.active.m[cfg.Secrets[i]].Declared)
+//@     invariant [fields-nonnil] forall j int :: (0 <= j && j < len(structs)) ==> structs[j] != nil
+
+// others' values are never touched by populating a struct (access stamps may change)
+//@ pred valuesKept(s *Store) { forall n string :: old(has(s.active.m, n)) ==> (has(s.active.m, n) && s.active.m[n].Secret == old(s.active.m[n].Secret)) }
+//@ func (fieldInfo).apply(f, ctx, s, fullName) (err)
+//@   requires storeInv(s) && !s.active.Mutex && ctx != nil && s.client != nil
+//@   ensures [C12,C20 fapply.inv] storeInv(s) && !s.active.Mutex && handlesKept(s) && valuesKept(s)
+//@   ensures [C16 fapply.gate] (!old(has(s.active.m, fullName)) && !s.allowLookup) ==> (err != nil && net == old(net) && sameEntries(s))
+//@   ensures [C20 fapply.known-no-request] old(has(s.active.m, fullName)) ==> net == old(net)
+//@   at call ValueOf: assert [C20 fapply.bytes-private-copy] boxfresh(arg_v)
+//@ func (*Fields).Apply(f, ctx, s) (err)
+//@   requires f != nil && storeInv(s) && !s.active.Mutex && ctx != nil && s.client != nil
+//@   ensures [C12,C20 apply.inv] storeInv(s) && !s.active.Mutex && handlesKept(s) && valuesKept(s)
+//@   ensures [C20 apply.errors-reported] (err == nil) == (len(errs) == 0)
+//@   at call apply: assert [C20 apply.full-name] arg_fullName == pathJoin2(f.prefix, fi.secretName)
+//@   loop 0
+//@     invariant [state] f != nil && storeInv(s) && !s.active.Mutex && ctx != nil && s.client != nil && handlesKept(s) && valuesKept(s) && len(errs) >= 0
+//@     invariant [errs-nonnil] forall j int :: (0 <= j && j < len(errs)) ==> errs[j] != nil
+//@     progress [C20 apply.failure-recorded] call_apply == nil || len(errs) == iterstart(len(errs)) + 1
+//@ loopexits [C20 apply.no-early-exit] (*Fields).Apply loop 0 == 1
